@@ -34,7 +34,7 @@ def pamEvents (script : String) : List Pam.SrvEv :=
     else if a.startsWith "S" then
       (if ((a.drop 1).toString.toNat?.getD 0) ≥ 1000 then some Pam.SrvEv.timeout else none)
     else if a == "C" || a == "X" then some Pam.SrvEv.eof
-    else if a == "I" then some Pam.SrvEv.intr
+    else if a == "I" || a.startsWith "P" then some Pam.SrvEv.intr
     else none).filter (fun e => e ≠ Pam.SrvEv.data [])
 
 /-- Model prediction for one command; `none` = malformed command. -/
